@@ -74,6 +74,17 @@ def setup():
             if rc != 0:
                 failed.append(pid)
                 print(out[-2500:])
+        # second pass: a translator may read compiled files of another property (fails closed when absent)
+        for pid in list(failed):
+            try:
+                plugin = load_plugin(pid)
+                run_translators(plugin, print)
+                rc, out, compiled = C.mini_make(C.prop_files(pid, getattr(plugin, "DEPENDS", ())), jobs=16)
+            except Exception as e:
+                rc, out, compiled = 1, repr(e), []
+            print("setup: %s (second pass): rc=%d, compiled %d files" % (pid, rc, len(compiled)))
+            if rc == 0:
+                failed.remove(pid)
     bad = C.forbidden_gate()
     for b in bad:
         print("setup: FORBIDDEN " + b)
